@@ -1292,6 +1292,10 @@ STATE_SWITCH:
                 // a dash, then we maybe processing the last boundary in the payload. If
                 // it is not, move to eat all bytes until the end of the line.
 
+                // We get here straight from a boundary match, which may have
+                // consumed the last byte of the input; wait for the next chunk.
+                if (pos >= len) break;
+
                 if (data[pos] == '-') {
                     // Found one dash, now go to check the next position.
                     pos++;
